@@ -86,9 +86,24 @@ def die_with_parent():
         pass
 
 
+def default_signal_dispositions():
+    """A runner started as a background job of a shell without job control (`cmd &` in a script, nohup, some CI
+    harnesses) inherits SIGINT / SIGQUIT / SIGHUP as *ignored*, and so would every child the checks start through
+    pexpect: a python REPL that never sees KeyboardInterrupt, a child that survives terminate()'s SIGINT.  The
+    subject's behaviour is defined for children with default dispositions."""
+    import signal
+    for sig in (signal.SIGINT, signal.SIGQUIT, signal.SIGHUP, signal.SIGTERM, signal.SIGCONT, signal.SIGUSR1, signal.SIGUSR2):
+        try:
+            if signal.getsignal(sig) == signal.SIG_IGN:
+                signal.signal(sig, signal.SIG_DFL)
+        except (OSError, ValueError):
+            pass
+
+
 def shard_main(pid, specpath, outpath):
     """Entry point of `python -m pvmon shard`."""
     die_with_parent()
+    default_signal_dispositions()
     mod = load_check(pid)
     with open(specpath, 'rb') as f:
         spec = pickle.load(f)
